@@ -94,7 +94,7 @@ TABLE = {
             "misuses map to their messages (T_C15_misuse) *and to the tokens to blame* (T_C15_at: message and leaf range of the diagnostic are "
             "one of the listed (misuse, place) pairs; T_C15_where + At.slice: every item-side place is a slice of the item holding exactly "
             "the offending tokens - the function's name, its receiver, the dependency type proper, the unsupported trait member, the `unsafe` "
-            "of an unsafe mod); no listed misuse => the model expands (T_C15_accepts). On the real side every case runs under catch_unwind, "
+            "of an unsafe mod; T_C15_attr_where_fn/_trait/_impl: an attribute-side place is one identifier leaf of the argument list, the word the unknown-option message quotes or the keyword of the unsupported option); no listed misuse => the model expands (T_C15_accepts). On the real side every case runs under catch_unwind, "
             "the generated region is re-parsed, a malformed-input stream and the misuse matrix are included; the leaf range each real "
             "diagnostic points at (span-locations) is compared with the model's, and rustc's own primary spans are checked by the probe "
             "n_c15_locations (20 located diagnostics).",
